@@ -45,6 +45,7 @@ def tasks(tier):
     ts += [("ff", st, 2, init, True) for st in b["stages"] for init in (0, -1)]
     ts += [("asyncff", st, e) for st in b["stages"] for e in ("pos", "neg")]
     ts += [("resetsync", st) for st in b["stages"]]
+    ts += [("resetsync", 2, "other"), ("asyncff", 2, "pos", "other")]
     ts += [("pulse", st) for st in b["stages"]]
     ts += [("check_stages",)]
     return ts
@@ -112,18 +113,26 @@ def check_ff(stages, width, init, signed_in=False, canary=False):
     return res
 
 
-def check_asyncff(stages, edge, via_reset_sync=False):
+def check_asyncff(stages, edge, via_reset_sync=False, domain="sync"):
     from amaranth.hdl import Signal, Module, ClockDomain, ResetSignal
     from amaranth.lib.cdc import AsyncFFSynchronizer, ResetSynchronizer
-    name = f"{'ResetSynchronizer' if via_reset_sync else 'AsyncFFSynchronizer'}(stages={stages},edge={edge})"
+    name = f"{'ResetSynchronizer' if via_reset_sync else 'AsyncFFSynchronizer'}(stages={stages},edge={edge}{'' if domain == 'sync' else ',domain=' + domain})"
     i, o = Signal(name="i"), Signal(name="o")
     m = Module()
-    m.domains.sync = cd = ClockDomain()
+    cd = ClockDomain(domain)
+    m.domains += cd
+    other = None
+    if domain != "sync":
+        # an unrelated "sync" domain is present too: its clock must play no part
+        other = ClockDomain("sync")
+        m.domains += other
+        tick = Signal(name="tick")
+        m.d.sync += tick.eq(~tick)
     if via_reset_sync:
-        m.submodules.rs = ResetSynchronizer(i, stages=stages)
+        m.submodules.rs = ResetSynchronizer(i, domain=domain, stages=stages)
         o = cd.rst
     else:
-        m.submodules.aff = AsyncFFSynchronizer(i, o, stages=stages, async_edge=edge)
+        m.submodules.aff = AsyncFFSynchronizer(i, o, o_domain=domain, stages=stages, async_edge=edge)
     d = Design(m)
     d.register(i, o)
     clk = cd.clk
@@ -135,6 +144,10 @@ def check_asyncff(stages, edge, via_reset_sync=False):
         for t in d._triggers():      # derived clock / reset of the private domain: low, input released
             d.set(t, 0)
         d.set(clk, 0)
+        if other is not None:
+            d.set(other.clk, 0)
+            if other.rst is not None:
+                d.set(other.rst, 0)
         d.set(i, rel)
         d.apply([], path, name + "::pre")
         # --- assertion: immediate, whatever the state and without any clock edge
@@ -148,6 +161,11 @@ def check_asyncff(stages, edge, via_reset_sync=False):
         # --- release: no change without a clock edge; released after exactly `stages` edges
         d.apply([(i, rel)], path, name + "::release")
         path.prove(f"{name}::release-needs-clock", d.val(o) == 1)
+        if other is not None:
+            for j in range(stages + 1):
+                d.apply([(other.clk, 1)], path, f"{name}::other-edge{j}")
+                d.apply([(other.clk, 0)], path, f"{name}::other-fall{j}")
+            path.prove(f"{name}::edges-of-another-domain-do-not-release", d.val(o) == 1)
         for j in range(1, stages + 1):
             d.apply([(clk, 1)], path, f"{name}::rel-edge{j}")
             path.prove(f"{name}::rel-edge{j}::output", d.val(o) == (1 if j < stages else 0))
@@ -240,9 +258,9 @@ def run_task(task):
     if k == "ff":
         return check_ff(*task[1:])
     if k == "asyncff":
-        return check_asyncff(task[1], task[2])
+        return check_asyncff(task[1], task[2], domain=task[3] if len(task) > 3 else "sync")
     if k == "resetsync":
-        return check_asyncff(task[1], "pos", via_reset_sync=True)
+        return check_asyncff(task[1], "pos", via_reset_sync=True, domain=task[2] if len(task) > 2 else "sync")
     if k == "pulse":
         return check_pulse(task[1])
     if k == "check_stages":
